@@ -18,6 +18,7 @@ mod conds;
 mod stmts;
 mod dump;
 mod takes;
+mod ddl;
 
 fn main() {
     let args: Vec<String> = std::env::args().collect();
@@ -65,6 +66,7 @@ fn dispatch(t: &[&str]) -> String {
         "stmt" => stmts::run(util::backend(t[1]), &sexp::parse(&t[2..].join(" "))),
         "inject" => stmts::run_inject(util::backend(t[1]), &sexp::parse(&t[2..].join(" "))),
         "entry" => stmts::run_entry(util::backend(t[1]), &sexp::parse(&t[2..].join(" "))),
+        "ddl" => ddl::run(util::backend(t[1]), &sexp::parse(&t[2..].join(" "))),
         "ftext" => {
             // ftext f32|f64 <bits-hex>: the Display text of the float
             if t[1] == "f32" {
